@@ -53,13 +53,15 @@ impl std::ops::Add for PhasedEval {
     type Output = Self;
 
     fn add(self, rhs: Self) -> Self::Output {
-        Self(self.0 + rhs.0)
+        // Boards with absurd amounts of material (which the FEN reader accepts) must not
+        // panic in checked builds, so sums wrap in every profile
+        Self(self.0.wrapping_add(rhs.0))
     }
 }
 
 impl std::ops::AddAssign for PhasedEval {
     fn add_assign(&mut self, rhs: Self) {
-        self.0 += rhs.0;
+        self.0 = self.0.wrapping_add(rhs.0);
     }
 }
 
@@ -67,13 +69,13 @@ impl std::ops::Sub for PhasedEval {
     type Output = Self;
 
     fn sub(self, rhs: Self) -> Self::Output {
-        Self(self.0 - rhs.0)
+        Self(self.0.wrapping_sub(rhs.0))
     }
 }
 
 impl std::ops::SubAssign for PhasedEval {
     fn sub_assign(&mut self, rhs: Self) {
-        self.0 -= rhs.0;
+        self.0 = self.0.wrapping_sub(rhs.0);
     }
 }
 
